@@ -20,15 +20,16 @@ CONSTANTS SpinSync,   \* world configured with force_spin_sync
           ObliqOn,    \* tides configured with obliquity_tides_on
           NVals       \* number of alternative values per input (value ids 0..NVals-1)
 
-VARIABLES e, obl, orb, spin, tm,        \* inputs: eccentricity, obliquity, orbital frequency, spin, mantle strength source
+VARIABLES e, obl, orb, spin, tm, tw,    \* inputs: eccentricity, obliquity, orbital frequency, spin, mantle strength source, time
           sus, eccRes, oblRes, terms,   \* memos of TidesBase
           ufreq,                        \* unique tidal frequencies handed to the rheology
           visc,                         \* viscosity / shear of the tidal layer (id of what it was computed from)
           compl,                        \* complex compliances of the tidal layer
-          coll, deriv                   \* exposed results (heating, dU/d*, k2, per-layer heating) and orbit derivatives
+          coll, deriv,                  \* exposed results (heating, dU/d*, k2, per-layer heating) and orbit derivatives
+          radio                         \* radiogenic heating of the layers (id of the time it was computed for)
 
-inputs == <<e, obl, orb, spin, tm>>
-memos == <<sus, eccRes, oblRes, terms, ufreq, visc, compl, coll, deriv>>
+inputs == <<e, obl, orb, spin, tm, tw>>
+memos == <<sus, eccRes, oblRes, terms, ufreq, visc, compl, coll, deriv, radio>>
 vars == <<inputs, memos>>
 
 None == <<>>
@@ -89,7 +90,7 @@ BlankMemo == [sus |-> 0, eccRes |-> NotGiven, oblRes |-> NotGiven, terms |-> Non
 \* construction: PhysicsOrbit(...) runs the cascade once (eccentricity and orbital frequency from the configuration); no
 \* layer temperature has been set
 Init ==
-  /\ e = 0 /\ obl = 0 /\ orb = 0 /\ tm = None
+  /\ e = 0 /\ obl = 0 /\ orb = 0 /\ tm = None /\ tw = None /\ radio = None
   /\ spin = (IF SpinSync THEN 0 ELSE NoSpin)
   /\ SetMemos0(WorldOSC(BlankMemo, 0, 0, 0, IF SpinSync THEN 0 ELSE NoSpin, TRUE, FALSE, TRUE, SpinSync))
 
@@ -102,25 +103,29 @@ WorldSetState(sp, ob, ec, orv) ==
   /\ (SpinSync => ~Given(sp))
   /\ LET ne == New(ec, e)  nobl == New(ob, obl)  norb == New(orv, orb)
          nspin == IF Given(orv) /\ SpinSync THEN norb ELSE New(sp, spin)
-     IN /\ e' = ne /\ obl' = nobl /\ orb' = norb /\ spin' = nspin /\ tm' = tm
+     IN /\ e' = ne /\ obl' = nobl /\ orb' = norb /\ spin' = nspin /\ tm' = tm /\ UNCHANGED <<tw, radio>>
         /\ SetMemos(WorldOSC(Memo, ne, nobl, norb, nspin, Given(ec), Given(ob), Given(orv), Given(sp)))
-WorldSetSpin(sp) == /\ ~SpinSync /\ spin' = sp /\ UNCHANGED <<e, obl, orb, tm>>
+WorldSetSpin(sp) == /\ ~SpinSync /\ spin' = sp /\ UNCHANGED <<e, obl, orb, tm, tw, radio>>
                     /\ SetMemos(WorldOSC(Memo, e, obl, orb, sp, FALSE, FALSE, FALSE, TRUE))
-WorldSetObliquity(ob) == /\ obl' = ob /\ UNCHANGED <<e, orb, spin, tm>>
+WorldSetObliquity(ob) == /\ obl' = ob /\ UNCHANGED <<e, orb, spin, tm, tw, radio>>
                          /\ SetMemos(WorldOSC(Memo, e, ob, orb, spin, FALSE, TRUE, FALSE, FALSE))
 \* orbit.set_state(world, eccentricity, orbital_*) and the single-quantity setters / world properties
 OrbitSetState(ec, orv) ==
   /\ Given(ec) \/ Given(orv)
   /\ LET ne == New(ec, e)  norb == New(orv, orb)
          nspin == IF Given(orv) /\ SpinSync THEN norb ELSE spin
-     IN /\ e' = ne /\ orb' = norb /\ spin' = nspin /\ UNCHANGED <<obl, tm>>
+     IN /\ e' = ne /\ orb' = norb /\ spin' = nspin /\ UNCHANGED <<obl, tm, tw, radio>>
         /\ SetMemos(WorldOSC(Memo, ne, obl, norb, nspin, Given(ec), FALSE, Given(orv), Given(orv) /\ SpinSync))
 \* layer.set_state(temperature=T) / layer.temperature = T / layer.set_temperature(T)
-LayerSetTemp(t) == /\ tm' = <<"T", t>> /\ UNCHANGED <<e, obl, orb, spin>>
+LayerSetTemp(t) == /\ tm' = <<"T", t>> /\ UNCHANGED <<e, obl, orb, spin, tw, radio>>
                    /\ SetMemos(StrengthChanged(Memo, <<"T", t>>, e, orb))
 \* layer.set_strength(viscosity, shear_modulus): overrides what the temperature gave
-LayerSetStrength(s) == /\ tm' = <<"S", s>> /\ UNCHANGED <<e, obl, orb, spin>>
+LayerSetStrength(s) == /\ tm' = <<"S", s>> /\ UNCHANGED <<e, obl, orb, spin, tw, radio>>
                        /\ SetMemos(StrengthChanged(Memo, <<"S", s>>, e, orb))
+
+\* orbit.time = t (the time lives on the orbit once a world is in one): every world's layers recompute their radiogenic
+\* heating; nothing tidal depends on it
+OrbitSetTime(t) == /\ tw' = t /\ radio' = t /\ UNCHANGED <<e, obl, orb, spin, tm, sus, eccRes, oblRes, terms, ufreq, visc, compl, coll, deriv>>
 
 OptVals == {NotGiven} \cup Vals
 Next ==
@@ -130,6 +135,7 @@ Next ==
   \/ \E ec \in OptVals, orv \in OptVals : OrbitSetState(ec, orv)
   \/ \E t \in Vals : LayerSetTemp(t)
   \/ \E s \in Vals : LayerSetStrength(s)
+  \/ \E t \in Vals : OrbitSetTime(t)
 Spec == Init /\ [][Next]_vars
 
 \* ---- C13: every exposed derived quantity is a function of the current inputs only ----
@@ -138,6 +144,7 @@ ExpTerms == <<e, OblEff, orb, spin>>
 ExpCompl == <<tm, <<orb, spin>>>>
 ExpColl == <<ExpTerms, ExpCompl, orb>>
 C13_Fresh_Layered ==
+  /\ radio = tw
   /\ sus = orb
   /\ (tm # None => visc = tm)
   /\ (spin # NoSpin => terms = ExpTerms /\ ufreq = <<orb, spin>>)
